@@ -116,6 +116,9 @@ pub struct Sim {
     /// per node: stepsRemoved written into the Announces it transmits (emulates a clock that far
     /// down the tree); None = untouched
     pub announce_steps: Vec<Option<u16>>,
+    /// per node: added (mod 2^16) to the sequenceId of every Announce it transmits, as if its ports had
+    /// been announcing for that long already
+    pub announce_seq_offset: Vec<u16>,
     /// contexts of transmit timestamps whose report is still on its way (indexed by EvKind::TxTs.slot)
     held_tx_ctx: Vec<Option<statime::port::TimestampContext>>,
     /// hash of the order of processed events (distinct-interleaving evidence)
@@ -142,6 +145,7 @@ impl Sim {
             events_processed: 0,
             one_step: vec![],
             announce_steps: vec![],
+            announce_seq_offset: vec![],
             held_tx_ctx: vec![],
             order_hash: 0xcbf29ce484222325,
         }
@@ -222,6 +226,15 @@ impl Sim {
                     m.hdr.set_flag(crate::refcodec::F_TWO_STEP, false);
                     m.hdr.correction = ((t & 0xffff_ffff) >> 16) as i64;
                     m.body = crate::refcodec::Body::Sync { origin: crate::refcodec::Ts { secs: (ns / 1_000_000_000) as u64, nanos: (ns % 1_000_000_000) as u32 } };
+                    m.hdr.length = None;
+                    data = m.encode();
+                }
+            }
+        }
+        if let Some(off) = self.announce_seq_offset.get(node).copied().filter(|o| *o != 0) {
+            if let Ok(mut m) = Msg::decode(&data) {
+                if m.hdr.msg_type == crate::refcodec::T_ANNOUNCE {
+                    m.hdr.seq = m.hdr.seq.wrapping_add(off);
                     m.hdr.length = None;
                     data = m.encode();
                 }
